@@ -438,12 +438,12 @@ var c11Names = []c11NameSet{
 	{[]string{"feature-one", "f2", "x_y.z"}, []string{"feature-one", "f2", "x_y.z", "feature-on"}},
 	{[]string{"nota", "android", "ore", "an"}, []string{"nota", "android", "ore", "an", "no"}}, // keywords as prefixes of names
 	{[]string{"a", "b", "c"}, []string{"p:a", "b", "q:c", "p:zz", "x:y:a", ":b", "c:"}},        // prefixed names
-	{[]string{"A", "Not", "AND"}, []string{"A", "Not", "AND", "a"}},                             // keywords are case sensitive
+	{[]string{"A", "Not", "AND"}, []string{"A", "Not", "AND", "a"}},                            // keywords are case sensitive
 }
 
 // C11 part (i): the if-feature evaluator. Parts (ii)/(iii) are in c11_guard.go / c11_deviate.go.
 func C11(ctx *core.Ctx) error {
-	ctx.Imports = "Feature.IfFeature Feature.Guard Check.C11Check"
+	ctx.Imports = "Feature.IfFeature Feature.Guard Feature.Deviate Check.C11Check"
 	ctx.ShardMax = 120000
 	ctx.Rule = "evaluator: every token sequence of length 0..L over {a,b,c,not,and,or,(,)} (L=5 quick, 6 thorough) and every grammatical sequence up to G tokens (G=7 quick, 9 thorough), each under all 8 assignments of a,b,c, through meta.IfFeature.Evaluate; random written expressions (depth<=6, random separators blank/tab/line break, redundant parentheses, either nesting) under all assignments of their 3-4 features; malformed texts (token deletion/insertion/duplication, byte soup, keywords touching parentheses). distinct = by SHA-256 of the case term; non-trivial = table with >1 sequence, or a single text"
 	r := gen.New(ctx.Seed)
@@ -572,5 +572,7 @@ func C11(ctx *core.Ctx) error {
 	}
 	// part (ii): guard presence through the loader
 	c11GuardCases(ctx, r.Fork(13))
+	// part (iii): deviations
+	c11DeviateCases(ctx, r.Fork(14))
 	return nil
 }
